@@ -3,7 +3,8 @@
    proofs in Proof/Fun2CoreProof.v. *)
 From Coq Require Import List ZArith NArith String Bool.
 From SCC Require Import Lang.FunSyn Lang.CoreSyn Sem.AxSem Sem.CoreSem Sem.FunSem Model.Fun2Core Proof.Fun2CoreProof Proof.Fun2CoreSim.
-From SCC Require Import Proof.Fun2CoreMain.
+From SCC Require Import Proof.Fun2CoreMain Proof.Fun2CoreInv Proof.Fun2CoreRel Proof.Fun2CoreProg Proof.Fun2CoreBarendregt
+     Proof.Fun2CoreExamples.
 Import ListNotations.
 
 (* ---------- the property at full strength (statements) ----------
@@ -174,6 +175,122 @@ Theorem C02_fun2core_correct_partial :
     exists m, run_core m c args = o.
 Proof. exact fun2core_correct_partial_lemma. Qed.
 Print Assumptions C02_fun2core_correct_partial.
+
+(* ---------- semantic preservation for the language WITHOUT CODATA (fragment 2) ----------
+   A strictly larger fragment than C02_fun2core_correct_partial (which stays as it is): ANY number of
+   definitions, each of them in the fragment, calls between them in tail and non-tail position
+   (a non-tail call creates a mu~ continuation, a tail call passes the return covariable), recursion,
+   conditionals and case in NON-TAIL position (the continuation is lifted to a definition
+   share_<f>_<n> and called with its free variables), let with an arbitrary bound term, data types
+   (constructors, case; clauses bind variables), labels and goto, labels passed to consumer parameters.
+
+   The fragment, spelled out ([frag p t], Proof/Fun2CoreInv.v): all term forms EXCEPT
+     - `new { .. }` and destructor calls `t.d(args)`                       (codata),
+     - a `let` whose variable has a codata type, a call/constructor argument of codata type, a case
+       scrutinee of codata type, a label of codata type                      (by-name evaluation),
+     - a call whose target is `main`                                        (finding call-to-main),
+     - a constructor argument that is a covariable and a case clause with a consumer parameter
+       (continuations stored in data), a call whose argument kinds differ from the callee's parameters.
+   [prog_guard p] (Proof/Fun2CoreProg.v): every definition d satisfies
+     frag p (fdbody d)                       the fragment,
+     ws (compile_ctx (fdctx d)) (fdbody d)   well-scoped: every variable/covariable occurrence is in scope
+                                             of a parameter or binder of the SAME kind and type
+                                             annotation (what the type checker guarantees),
+     nocap (fdbody d)                        the CAPTURE GUARD: wherever the translation places a
+                                             continuation built from a term u under the binders of a
+                                             term t (let-bound term / case scrutinee / labelled
+                                             term), the binders of t are distinct from all names of u;
+                                             implied by the Barendregt condition (theorem below),
+     and the body of main has a data type.
+   Conclusion: EVERY source run that ends in a final outcome ([final]: normal exit or undefined
+   arithmetic; stuck and out-of-fuel runs are not compared) is reproduced, output and outcome, by the
+   Core machine on the model's translation.
+
+   Method (Proof/Fun2CoreRel.v .. Fun2CoreFLh.v): a step-indexed forward simulation between CEK
+   configurations and Core machine configurations; values, environments and continuations are related
+   by a relation designed for the full language (its clauses for closures and thunks are not used by any
+   term form of the fragment).  WHERE THE GUARD IS USED: only in the cases that put a continuation under
+   a binder - `let x = t; u` (lemma fl_let: the continuation of u is placed under x, and the
+   continuation mu~x.[[u]] of t under the binders of t), `case` (fl_case: the continuation under the
+   clause parameters; the case consumer under the binders of the scrutinee), `label`/`goto` - as the
+   disjointness of those binders from the free names of the continuation.  Without it the statement is
+   false: capture_witness satisfies frag and ws but not nocap (C02_guard_rejects_capture_witness).
+   MISSING for the full property: codata (new, destructors, by-name bindings). *)
+Theorem C02_fun2core_correct_fragment2 :
+  forall (p : fcprog) (c : cprog) (args : list Z) (n : nat) (o : obs),
+    compile_prog p = Ok c ->
+    NoDup (map fdname (fcpdefs p)) ->
+    prog_guard p = true ->
+    run_fun n p args = o -> final o ->
+    exists m, run_core m c args = o.
+Proof. exact fun2core_correct_fragment_lemma. Qed.
+Print Assumptions C02_fun2core_correct_fragment2.
+
+(* the Barendregt condition of the property (binders of a definition pairwise distinct and distinct
+   from its parameters) implies the capture guard, for well-scoped definitions of the fragment *)
+Theorem C02_barendregt_implies_capture_guard : forall p d,
+  frag p (fdbody d) = true -> ws (compile_ctx (fdctx d)) (fdbody d) = true -> barendregt_def d = true ->
+  nocap (fdbody d) = true.
+Proof. exact barendregt_def_nocap. Qed.
+Print Assumptions C02_barendregt_implies_capture_guard.
+
+(* ... so the theorem holds under the guard of fun2core_correct_guarded_statement plus the fragment:
+   [frag_prog p]: every definition is in the fragment and well-scoped, main returns data *)
+Theorem C02_fun2core_correct_fragment2_barendregt :
+  forall (p : fcprog) (c : cprog) (args : list Z) (n : nat) (o : obs),
+    compile_prog p = Ok c ->
+    NoDup (map fdname (fcpdefs p)) ->
+    frag_prog p = true -> barendregt p = true ->
+    run_fun n p args = o -> defined o = true ->
+    exists m, run_core m c args = o.
+Proof.
+  intros p c args n o Hc Hnd Hf Hb Hr Hd.
+  exact (fun2core_correct_fragment_lemma p c args n o Hc Hnd (barendregt_prog_guard p Hf Hb) Hr (defined_final o Hd)).
+Qed.
+Print Assumptions C02_fun2core_correct_fragment2_barendregt.
+
+(* the hypotheses are satisfiable: four concrete multi-definition programs inside the guard, both
+   machines evaluated (vm_compute), the Core side on the model's translation *)
+(* 1. calls: fib (non-tail recursive calls in operand position), even/odd (mutual tail calls) *)
+Example C02_fragment2_example_calls :
+  prog_guard ex_calls = true /\ NoDup (map fdname (fcpdefs ex_calls)) /\
+  compile_prog ex_calls = Ok (compiled_or_empty ex_calls) /\
+  run_fun 3000 ex_calls [10%Z] = ([(true, 55%Z); (true, 1%Z)], OExit 0%Z) /\
+  run_core 5000 (compiled_or_empty ex_calls) [10%Z] = ([(true, 55%Z); (true, 1%Z)], OExit 0%Z).
+Proof. exact ex_calls_ok. Qed.
+(* 2. shared continuations: a conditional as let-bound term (twice, nested let inside a branch): two
+   lifted definitions share_clamp_0, share_clamp_1 *)
+Example C02_fragment2_example_shared :
+  prog_guard ex_shared = true /\ NoDup (map fdname (fcpdefs ex_shared)) /\
+  compile_prog ex_shared = Ok (compiled_or_empty ex_shared) /\
+  (2 <= List.length (cpdefs (compiled_or_empty ex_shared)) - 2)%nat /\
+  run_fun 1000 ex_shared [1%Z] = ([(true, 3%Z); (true, 207%Z)], OExit 0%Z) /\
+  run_core 2000 (compiled_or_empty ex_shared) [1%Z] = ([(true, 3%Z); (true, 207%Z)], OExit 0%Z).
+Proof. exact ex_shared_ok. Qed.
+(* 3. data: lists built recursively, summed by a recursive case, a case in non-tail position *)
+Example C02_fragment2_example_data :
+  prog_guard ex_data = true /\ NoDup (map fdname (fcpdefs ex_data)) /\
+  compile_prog ex_data = Ok (compiled_or_empty ex_data) /\
+  run_fun 2000 ex_data [6%Z] = ([(true, 21%Z); (true, 36%Z)], OExit 0%Z) /\
+  run_core 4000 (compiled_or_empty ex_data) [6%Z] = ([(true, 21%Z); (true, 36%Z)], OExit 0%Z).
+Proof. exact ex_data_ok. Qed.
+(* 4. labels: goto out of a conditional under an operator, a label passed to a consumer parameter
+   and jumped to from the callee *)
+Example C02_fragment2_example_labels :
+  prog_guard ex_labels = true /\ NoDup (map fdname (fcpdefs ex_labels)) /\
+  compile_prog ex_labels = Ok (compiled_or_empty ex_labels) /\
+  run_fun 1000 ex_labels [5%Z] = ([(true, 1042%Z); (true, 1006%Z); (true, 10%Z)], OExit 0%Z) /\
+  run_core 2000 (compiled_or_empty ex_labels) [5%Z] = ([(true, 1042%Z); (true, 1006%Z); (true, 10%Z)], OExit 0%Z).
+Proof. exact ex_labels_ok. Qed.
+
+(* the guard is necessary: the capture witness (C02_fun2core_capture_refuted) is in the fragment and
+   well-scoped - what it violates is exactly the capture guard; the call-to-main witness violates frag *)
+Theorem C02_guard_rejects_capture_witness :
+  forallb (fun d => frag capture_witness (fdbody d) && ws (compile_ctx (fdctx d)) (fdbody d)) (fcpdefs capture_witness) = true /\
+  existsb (fun d => negb (nocap (fdbody d))) (fcpdefs capture_witness) = true /\
+  prog_guard capture_witness = false /\ prog_guard call_main_witness = false.
+Proof. vm_compute. repeat split; reflexivity. Qed.
+Print Assumptions C02_guard_rejects_capture_witness.
 
 (* ---------- for property C19 (output size): continuations are shared, not duplicated ---------- *)
 (* `if` with a continuation that is not a leaf: the continuation is lifted ONCE by `share` (it sits in
